@@ -288,6 +288,7 @@ def emit(o, repo, T):
     emit_struct3(o, repo, T)
     emit_struct4(o, repo, T)
     emit_struct5(o, repo, T)
+    emit_struct5grad(o, repo, T)
 
 
 def _skip_prologue(T, fn, allowed):
@@ -3952,3 +3953,271 @@ def emit_struct5(o, repo, T):
                 '    List P × Option P × List C :=\n'
                 f'  {body}')
     o.const('xpc.build_xpc.loop', build_xpc_loop)
+
+
+# =========================================================================================================
+# Fifth wave, (b) (Oblig/Struct5Grad.lean): the per-node rules of `eval_backward` (deeprob/spn/algorithms/gradient.py) over an
+# ABSTRACT log-number carrier `L` (parameters `add`, `sub`, `log`, `logsumexp`, `lit`), so that the association of every
+# expression is kept exactly as written (`(g + lls[node]) - lls[c]` is not `g + (lls[node] - lls[c])` in float32).
+# Variables are identified by their ROLE (parameters by position, `grads` = the returned `np.empty` table, the cache = the
+# `defaultdict(list)`, `nodes` = the result of `topological_order(root)`, loop variables by position), never by their name.
+# =========================================================================================================
+def emit_struct5grad(o, repo, T):
+    U = T.Untranslatable
+
+    def nodoc(stmts):
+        return [s for s in stmts if not (isinstance(s, ast.Expr) and isinstance(s.value, ast.Constant))]
+
+    def txt(e):
+        return ast.unparse(e).replace(' ', '')
+
+    def rules():
+        q = 'eval_backward'
+        grad = T.parse_file(repo, 'deeprob/spn/algorithms/gradient.py')
+        fn = T.find_func(grad, q)
+        # ---- what the global names used by the rules are bound to (module level), and that the function does not rebind them
+        imported = {}
+        for s in grad.body:
+            if isinstance(s, ast.ImportFrom):
+                for a in s.names:
+                    imported[a.asname or a.name] = f'{s.module}.{a.name}'
+            elif isinstance(s, ast.Import):
+                for a in s.names:
+                    imported[a.asname or a.name] = a.name
+            elif isinstance(s, (ast.FunctionDef, ast.ClassDef)):
+                imported[s.name] = f'<defined in gradient.py>.{s.name}' if s.name != q else q
+            elif isinstance(s, (ast.Assign, ast.AugAssign, ast.AnnAssign)):
+                for n in ast.walk(s):
+                    if isinstance(n, ast.Name) and isinstance(n.ctx, ast.Store):
+                        imported[n.id] = '<assigned at module level>'
+        want = {'logsumexp': 'scipy.special.logsumexp', 'np': 'numpy', 'defaultdict': 'collections.defaultdict',
+                'Sum': 'deeprob.spn.structure.node.Sum', 'Product': 'deeprob.spn.structure.node.Product',
+                'topological_order': 'deeprob.spn.structure.node.topological_order', 'Leaf': 'deeprob.spn.structure.leaf.Leaf'}
+        for k, v in want.items():
+            if imported.get(k) != v:
+                raise U(f'{q}: the name {k} is bound to {imported.get(k)}, expected {v}')
+        GLOBALS = set(want) | {'isinstance', 'zip', 'list', 'len', 'check_spn'}
+        params = [a.arg for a in fn.args.args]
+        if len(params) != 2 or fn.args.vararg or fn.args.kwarg or fn.args.kwonlyargs or fn.args.posonlyargs:
+            raise U(f'{q}: expected two plain parameters (root, lls), found {params}')
+        p_root, p_lls = params
+        for n in ast.walk(fn):
+            if isinstance(n, ast.Name) and isinstance(n.ctx, (ast.Store, ast.Del)) and (n.id in params or n.id in GLOBALS):
+                raise U(f'{q}: {n.id} is rebound inside the function')
+            if isinstance(n, (ast.FunctionDef, ast.Lambda, ast.ClassDef)) and n is not fn:
+                raise U(f'{q}: nested function / lambda / class')
+        stmts = nodoc(fn.body)
+        loop = T.the([s for s in stmts if isinstance(s, (ast.For, ast.While))], f'{q}: the loop over the nodes')
+        if not isinstance(loop, ast.For) or loop.orelse:
+            raise U(f'{q}: the loop over the nodes is not a plain `for`')
+        k = stmts.index(loop)
+        before, after = stmts[:k], stmts[k + 1:]
+
+        # ---- prologue: roles
+        nodes, grads, cache, dtype, root_init, checks = [], [], [], [], [], []
+        for st in before:
+            if isinstance(st, ast.Expr) and isinstance(st.value, ast.Call) and T.dotted_name(st.value.func) == 'check_spn':
+                c = st.value
+                if [txt(a) for a in c.args] != [p_root]:
+                    raise U(f'{q}: check_spn is not called on the root')
+                checks.append([(kw.arg, txt(kw.value)) for kw in c.keywords])
+                continue
+            if isinstance(st, ast.If) and not st.orelse and len(st.body) == 1 and isinstance(st.body[0], ast.Raise):
+                continue  # an argument guard that raises
+            if not (isinstance(st, ast.Assign) and len(st.targets) == 1):
+                raise U(f'{q}: unexpected statement before the loop: {txt(st)}')
+            t, v = st.targets[0], st.value
+            if isinstance(t, ast.Name) and isinstance(v, ast.Call) and T.dotted_name(v.func) == 'topological_order':
+                if [txt(a) for a in v.args] != [p_root] or v.keywords:
+                    raise U(f'{q}: topological_order is not called on the root')
+                nodes.append(t.id)
+            elif isinstance(t, ast.Tuple) and all(isinstance(x, ast.Name) for x in t.elts) and txt(v) == f'{p_lls}.shape':
+                pass
+            elif isinstance(t, ast.Name) and isinstance(v, ast.Call) and T.dotted_name(v.func) == 'np.empty':
+                dt = [kw.value for kw in v.keywords if kw.arg == 'dtype']
+                dn = T.dotted_name(T.the(dt, f'{q}: dtype of the gradient table')) or ''
+                if not dn.startswith('np.'):
+                    raise U(f'{q}: dtype of the gradient table: {dn}')
+                grads.append(t.id)
+                dtype.append(dn[3:])
+            elif isinstance(t, ast.Name) and txt(v) == 'defaultdict(list)':
+                cache.append(t.id)
+            elif isinstance(t, ast.Subscript) and isinstance(t.value, ast.Name) and t.value.id in grads:
+                if txt(t.slice) != f'{p_root}.id':
+                    raise U(f'{q}: an entry of the gradient table other than the root\'s is initialised: {txt(st)}')
+                root_init.append(T.const_value(v))
+            else:
+                raise U(f'{q}: unexpected statement before the loop: {txt(st)}')
+        if [len(x) for x in (nodes, grads, cache, root_init, checks)] != [1, 1, 1, 1, 1]:
+            raise U(f'{q}: expected one each of topological order, gradient table, cache, root initialisation, check_spn; found '
+                    f'{nodes}, {grads}, {cache}, {root_init}, {checks}')
+        nodes, grads, cache, dtype, root_init, checks = nodes[0], grads[0], cache[0], dtype[0], root_init[0], checks[0]
+        if len({nodes, grads, cache, p_root, p_lls}) != 5:
+            raise U(f'{q}: the roles of the variables overlap')
+        if [txt(s) for s in after] != [f'return{grads}']:
+            raise U(f'{q}: after the loop: {[txt(s) for s in after]}, expected the gradient table to be returned')
+
+        # ---- the loop: `for <node> in <nodes>` — the topological order itself, neither reversed nor re-sorted
+        if not (isinstance(loop.iter, ast.Name) and loop.iter.id == nodes and isinstance(loop.target, ast.Name)):
+            raise U(f'{q}: the loop is not `for <node> in <the result of topological_order(root)>`: {txt(loop.iter)}')
+        nd = loop.target.id
+        if nd in (nodes, grads, cache, p_root, p_lls):
+            raise U(f'{q}: the loop variable shadows {nd}')
+        body = nodoc(loop.body)
+        if len(body) != 2 or not all(isinstance(s, ast.If) for s in body):
+            raise U(f'{q}: the loop body is not (accumulate unless root, dispatch on the node class)')
+        acc, disp = body
+
+        # accumulate: `if <node>.id != <root>.id: <grads>[<node>.id] = logsumexp(<cache>[<node>.id], axis=0) [; del <cache>[<node>.id]]`
+        tst = acc.test
+        if not (isinstance(tst, ast.Compare) and len(tst.ops) == 1 and isinstance(tst.ops[0], ast.NotEq)
+                and sorted([txt(tst.left), txt(tst.comparators[0])]) == sorted([f'{nd}.id', f'{p_root}.id'])) or acc.orelse:
+            raise U(f'{q}: the accumulation is not guarded by `<node>.id != <root>.id` (without else): {txt(tst)}')
+        ab = nodoc(acc.body)
+        if not (1 <= len(ab) <= 2 and isinstance(ab[0], ast.Assign) and len(ab[0].targets) == 1 and txt(ab[0].targets[0]) == f'{grads}[{nd}.id]'):
+            raise U(f'{q}: the accumulation does not assign <grads>[<node>.id]')
+        if len(ab) == 2 and txt(ab[1]) != f'del{cache}[{nd}.id]':
+            raise U(f'{q}: second statement of the accumulation is not `del <cache>[<node>.id]`: {txt(ab[1])}')
+        red = ab[0].value
+        if not (isinstance(red, ast.Call) and isinstance(red.func, ast.Name)):
+            raise U(f'{q}: the accumulation is not a call of a reduction: {txt(red)}')
+        if red.func.id != 'logsumexp':
+            raise U(f'{q}: the reduction over the cached contributions is {red.func.id}, not scipy.special.logsumexp')
+        if [txt(a) for a in red.args] != [f'{cache}[{nd}.id]']:
+            raise U(f'{q}: logsumexp is not applied to <cache>[<node>.id]: {[txt(a) for a in red.args]}')
+        if [(kw.arg, txt(kw.value)) for kw in red.keywords] != [('axis', '0')]:
+            raise U(f'{q}: logsumexp keywords {[(kw.arg, txt(kw.value)) for kw in red.keywords]}, expected axis=0 only')
+
+        # dispatch: if / elif chain on isinstance(<node>, <Class>), optional final else that raises
+        CLS = {'Sum': 'isSum', 'Product': 'isProduct', 'Leaf': 'isLeaf'}
+
+        def expr(e, env, cvar, wvar, allowed):
+            """a log-domain expression over the symbols g (= <grads>[<node>.id]), logw (= np.log(<weight>)), llNode (= <lls>[<node>.id]),
+            llChild (= <lls>[<child>.id]); `+` / `-` are rendered as applications of `add` / `sub` with the association of the source"""
+            if isinstance(e, ast.Name) and e.id in env:
+                return env[e.id]
+            if isinstance(e, ast.BinOp) and isinstance(e.op, (ast.Add, ast.Sub)):
+                f = 'add' if isinstance(e.op, ast.Add) else 'sub'
+                a, b = expr(e.left, env, cvar, wvar, allowed), expr(e.right, env, cvar, wvar, allowed)
+                wrap = lambda s: f'({s})' if ' ' in s else s
+                return f'{f} {wrap(a)} {wrap(b)}'
+            t = txt(e)
+            sym = None
+            if t == f'{grads}[{nd}.id]':
+                sym = 'g'
+            elif t == f'{p_lls}[{nd}.id]':
+                sym = 'llNode'
+            elif cvar and t == f'{p_lls}[{cvar}.id]':
+                sym = 'llChild'
+            elif wvar and t == f'np.log({wvar})':
+                sym = 'logw'
+            if sym is None or sym not in allowed:
+                raise U(f'{q}: expression {t} in the rule of a {"Sum" if wvar else "Product"} node')
+            return sym
+
+        def branch(cls, stmts):
+            stmts = nodoc(stmts)
+            if len(stmts) == 1 and isinstance(stmts[0], ast.Pass):
+                return None, 'some []'
+            if cls == 'Leaf':
+                raise U(f'{q}: a Leaf node does something: {[txt(s) for s in stmts]}')
+            lp = T.the(stmts, f'{q}: statements of the {cls} branch')
+            if not isinstance(lp, ast.For) or lp.orelse:
+                raise U(f'{q}: the {cls} branch is not one `for` loop over the children')
+            it = txt(lp.iter)
+            if it == f'zip({nd}.children,{nd}.weights)' and isinstance(lp.target, ast.Tuple) and len(lp.target.elts) == 2 \
+                    and all(isinstance(x, ast.Name) for x in lp.target.elts):
+                cvar, wvar = [x.id for x in lp.target.elts]
+                src, bound, cref, wref = '((children node).zip (weights node))', 'cw', 'cw.1', 'cw.2'
+            elif it == f'{nd}.children' and isinstance(lp.target, ast.Name):
+                cvar, wvar = lp.target.id, None
+                src, bound, cref, wref = '(children node)', 'c', 'c', None
+            else:
+                raise U(f'{q}: the {cls} branch iterates over {it} (expected <node>.children or zip(<node>.children, <node>.weights))')
+            if cls == 'Sum' and wvar is None:
+                raise U(f'{q}: the Sum branch does not zip the children with the weights')
+            if cls == 'Product' and wvar is not None:
+                raise U(f'{q}: the Product branch reads weights')
+            if len({cvar, wvar, nd, nodes, grads, cache, p_root, p_lls}) != 8:
+                raise U(f'{q}: loop variables of the {cls} branch shadow another variable')
+            allowed = {'g', 'logw'} if cls == 'Sum' else {'g', 'llNode', 'llChild'}
+            env, sent = {}, []
+            for st in nodoc(lp.body):
+                if sent:
+                    raise U(f'{q}: statement after the append in the {cls} branch: {txt(st)}')
+                if isinstance(st, ast.Assign) and len(st.targets) == 1 and isinstance(st.targets[0], ast.Name):
+                    if st.targets[0].id in (cvar, wvar, nd, nodes, grads, cache, p_root, p_lls):
+                        raise U(f'{q}: {st.targets[0].id} is reassigned in the {cls} branch')
+                    env[st.targets[0].id] = expr(st.value, env, cvar, wvar, allowed)
+                elif (isinstance(st, ast.Expr) and isinstance(st.value, ast.Call) and isinstance(st.value.func, ast.Attribute)
+                      and st.value.func.attr == 'append' and len(st.value.args) == 1 and not st.value.keywords):
+                    tgt = txt(st.value.func.value)
+                    if tgt == f'{cache}[{cvar}.id]':
+                        key = f'nid {cref}'
+                    elif tgt == f'{cache}[{nd}.id]':
+                        key = 'nid node'
+                    else:
+                        raise U(f'{q}: the {cls} branch appends to {tgt}, not to the cache entry of a node')
+                    sent.append((key, expr(st.value.args[0], env, cvar, wvar, allowed)))
+                else:
+                    raise U(f'{q}: unexpected statement in the {cls} branch: {txt(st)}')
+            key, rule = T.the(sent, f'{q}: appends in the {cls} branch')
+            if cls == 'Sum':
+                if 'sub ' in rule:
+                    raise U(f'{q}: the Sum rule subtracts: {rule}')
+                call = f'S5gradSum add (log {wref}) g'
+            else:
+                call = f'S5gradProd add sub g (lls (nid node)) (lls (nid {cref}))'
+            return rule, f'some ({src}.map (fun {bound} => ({key}, {call})))'
+
+        chain, cur, rule_of = [], disp, {}
+        while True:
+            t = cur.test
+            if not (isinstance(t, ast.Call) and T.dotted_name(t.func) == 'isinstance' and len(t.args) == 2 and txt(t.args[0]) == nd
+                    and isinstance(t.args[1], ast.Name) and t.args[1].id in CLS):
+                raise U(f'{q}: dispatch test {txt(t)} is not isinstance(<node>, Sum / Product / Leaf)')
+            cls = t.args[1].id
+            if cls in rule_of:
+                raise U(f'{q}: two branches for {cls}')
+            rule_of[cls], term = branch(cls, cur.body)
+            chain.append((CLS[cls], term))
+            if len(cur.orelse) == 1 and isinstance(cur.orelse[0], ast.If):
+                cur = cur.orelse[0]
+                continue
+            rest = nodoc(cur.orelse)
+            if not rest or (len(rest) == 1 and isinstance(rest[0], ast.Pass)):
+                final = 'some []'
+            elif len(rest) == 1 and isinstance(rest[0], ast.Raise):
+                final = 'none'
+            else:
+                raise U(f'{q}: the final else of the dispatch is neither absent nor a raise')
+            break
+        if rule_of.get('Sum') is None or rule_of.get('Product') is None:
+            raise U(f'{q}: no rule for Sum or for Product nodes: {rule_of}')
+        sends = ''.join(f'if {p} node then {t}\n  else ' for p, t in chain) + final
+        pairs = T.lean_list([f'({T.lean_str(a)}, {T.lean_str(b)})' for a, b in checks])
+        return [
+            '/-- `eval_backward` (algorithms/gradient.py): the value written to `grads[root.id]` before the loop, as a literal of the log-number '
+            'carrier (`lit`); the element type of the table `grads`; the flags of the `check_spn` call that guards the pass -/\n'
+            f'def S5gradRoot {{L : Type}} (lit : Rat → L) : L := lit {T.q_lean(root_init)}\n'
+            f'def S5gradDtype : String := {T.lean_str(dtype)}\n'
+            f'def S5gradCheckSpn : List (String × String) := {pairs}',
+            '/-- `eval_backward`: the gradient of a non-root node = `scipy.special.logsumexp(cached, axis=0)` of the LIST `cached` of the '
+            'contributions its parents appended (axis 0 = along that list), no weights, no other keyword -/\n'
+            'def S5gradAccum {L : Type} (logsumexp : List L → L) (cached : List L) : L := logsumexp cached\n'
+            '/-- … applied when the node is visited, unless it is the root (test `node.id != root.id`): `cur` = the entry already in `grads` -/\n'
+            'def S5gradNode {L : Type} (logsumexp : List L → L) (nodeId rootId : Nat) (cur : L) (cached : List L) : L :=\n'
+            '  if nodeId != rootId then S5gradAccum logsumexp cached else cur',
+            '/-- `eval_backward`, Sum node: what is appended for a child of weight `w`; g = `grads[node.id]`, logw = `np.log(w)`; association as written -/\n'
+            f'def S5gradSum {{L : Type}} (add : L → L → L) (logw : L) (g : L) : L := {rule_of["Sum"]}\n'
+            '/-- `eval_backward`, Product node: what is appended for a child `c`; g = `grads[node.id]`, llNode = `lls[node.id]`, llChild = `lls[c.id]`; '
+            'association as written (float32 evaluates it in this order) -/\n'
+            f'def S5gradProd {{L : Type}} (add sub : L → L → L) (g llNode llChild : L) : L := {rule_of["Product"]}',
+            '/-- `eval_backward`: the messages `(key of the cache entry appended to, value appended)` a visited node sends, in order, with g = its '
+            'final `grads` entry; the nodes are visited in the order of `topological_order(root)` (checked: the loop iterates over that list '
+            'itself); `isSum n` = `isinstance(n, Sum)` etc., `children` / `weights` = attribute reads, `nid n` = `n.id`, `lls k` = `lls[k]`; '
+            '`none` = the branch that raises `NotImplementedError` -/\n'
+            'def S5gradSends {L N W : Type} (add sub : L → L → L) (log : W → L) (isSum isProduct isLeaf : N → Bool)\n'
+            '    (children : N → List N) (weights : N → List W) (nid : N → Nat) (lls : Nat → L) (node : N) (g : L) : Option (List (Nat × L)) :=\n'
+            f'  {sends}']
+    o.const('gradient.eval_backward.rules', rules)
